@@ -236,7 +236,12 @@ class EscapeSequence(SpanToken):
 
     @classmethod
     def strip(cls, string):
-        return tokenizer.unescape(cls.pattern.sub(r'\1', string))
+        # in one pass from left to right, so that an escaped '&' does not start a character reference
+        return cls._strip_pattern.sub(
+            lambda m: m.group(1) if m.group(1) is not None else tokenizer.unescape(m.group(0)), string)
+
+
+EscapeSequence._strip_pattern = re.compile(EscapeSequence.pattern.pattern + r'|&[^\s&;]{1,32};')
 
 
 class LineBreak(SpanToken):
